@@ -96,7 +96,10 @@ def export_shapes():
            ("Select", ("Select", aa, x), y), ("Equals", ("Array", ("type", INT), L(0, INT)), arr),
            ("Equals", ("Store", ("Array", ("type", INT), L(7, INT)), L(1, INT), L(2, INT)), arr),
            ("Equals", f(f(x)), y), p2(x, r), ("And", p2(f(x), L(F(1, 2), REAL)), ("Not", p2(y, r))),
-           ("Equals", e1, e2), ("Equals", h(e1), e2), ("Not", ("Equals", h(h(e1)), e1))]
+           ("Equals", e1, e2), ("Equals", h(e1), e2), ("Not", ("Equals", h(h(e1)), e1)),
+           # a sort that occurs only in the signature of an inner application
+           ("LT", f(("fun", "hu", INT, (US,), ("fun", "mk", US, (INT,), x))), y),
+           p2(("fun", "hv", INT, (("CUSTOM", "V"),), S("v0", ("CUSTOM", "V"))), r)]
     # quantifiers
     qa, qx = [("a", BOOL)], [("x", INT)]
     sh += [("forall", qa, ("Or", a, b)), ("exists", qx, ("LT", x, y)), ("And", ("LT", x, y), ("exists", qx, ("LT", y, x))),
@@ -357,6 +360,11 @@ def import_corpus():
     add("push-pop-n", D + "(assert a)(push 2)(assert b)(pop 2)(push 1)(assert c)")
     add("push-declare", D + "(push 1)(declare-fun t () Int)(assert (< t x))(pop 1)(assert a)")
     add("two-assertions", D + "(assert a)(assert (or b c))(check-sat)")
+    # optimisation commands (pySMT extension of the command set)
+    add("omt-objectives", D + "(maximize x)(minimize (+ x y))(check-sat)(get-objectives)")
+    add("omt-signed", BV + "(maximize u)(maximize u :signed)(minimize v :id goal1)(check-sat)")
+    add("omt-soft", D + "(assert-soft a :weight 2 :id g)(assert-soft (not a) :id g)(assert-soft b)(check-sat)")
+    add("omt-stack", D + "(assert (< x 3))(push 1)(maximize x)(assert-soft a :id g)(pop 1)(minimize y)(check-sat)")
     add("no-assertions", D + "(check-sat)")
     return c
 
@@ -397,6 +405,12 @@ def reject_corpus():
     add("unterminated-string", "(declare-fun st () String)(assert (= st \"abc))")
     add("unterminated-quoted", "(declare-fun |a b () Bool)(assert a)")
     return c
+
+
+def _opt_sig(w, v):
+    if w.is_node(v):
+        return sc.node_str(w, v)
+    return v
 
 
 def _cmd_list(w, it, script):
@@ -473,6 +487,12 @@ def _import_job(job):
             else:
                 bad = None
                 for (nm, a1), (_nm2, a2) in zip(cmds, c2):
+                    if nm in ("maximize", "minimize", "assert-soft") and a1 and a2:
+                        o1 = dict((k_, _opt_sig(w, v_)) for k_, v_ in (w.it.iterate(a1[1]) if len(a1) > 1 and a1[1] else []))
+                        o2 = dict((k_, _opt_sig(w, v_)) for k_, v_ in (w.it.iterate(a2[1]) if len(a2) > 1 and a2[1] else []))
+                        if a1[0] is not a2[0] or o1 != o2:
+                            bad = "%s %s %s re-serialises to %s %s" % (nm, sc.node_str(w, a1[0]), o1, sc.node_str(w, a2[0]), o2)
+                            break
                     if nm == "assert" and a1 and a2 and a1[0] is not a2[0]:
                         try:
                             ok, why = textsem.equivalent(textsem.from_node(w, a1[0]), textsem.from_node(w, a2[0]))
@@ -493,12 +513,21 @@ def _import_job(job):
             if shown:
                 out["detail"] += "; read as %s" % "; ".join(shown)[:200]
         return out
-    # compare the asserted terms in order
-    mine = [a[0] for n_, a in cmds if n_ == "assert"]
-    theirs = [t for n_, t in ref.commands if n_ == "assert"]
+    # compare the asserted terms (and objective terms / soft clauses) in order
+    TERM_CMDS = ("assert", "maximize", "minimize", "assert-soft")
+    mine = [a[0] for n_, a in cmds if n_ in TERM_CMDS]
+    theirs = [(t if n_ == "assert" else t[0]) for n_, t in ref.commands if n_ in TERM_CMDS]
+    # flags of the objectives
+    for (n1, a1), (n2, t2) in zip([(n_, a) for n_, a in cmds if n_ in ("maximize", "minimize")],
+                                  [(n_, t) for n_, t in ref.commands if n_ in ("maximize", "minimize")]):
+        opts = dict(w.it.iterate(a1[1])) if len(a1) > 1 and a1[1] else {}
+        if bool(opts.get(":signed", False)) != bool(t2[1].get(":signed", False)):
+            out["kind"] = "invalid"
+            out["detail"] = "%s: the :signed flag is read as %r, the text says %r" % (n1, opts.get(":signed"), t2[1].get(":signed", False))
+            return out
     if len(mine) != len(theirs):
         out["kind"] = "invalid"
-        out["detail"] = "%d assert commands returned, the text has %d" % (len(mine), len(theirs))
+        out["detail"] = "%d term commands returned, the text has %d" % (len(mine), len(theirs))
         return out
     n_ok = 0
     for i, (m, t) in enumerate(zip(mine, theirs)):
